@@ -237,14 +237,15 @@ def yaml_scalar(e) -> str:
     return json.dumps(e, ensure_ascii=False)     # a double-quoted YAML string
 
 
-def yaml_node(x, ind: int) -> str:
+def yaml_node(x, ind: int, intkeys: bool = False) -> str:
     pad = "  " * ind
     if isinstance(x, dict):
         if not x:
             return " {}\n"
         s = "\n"
         for k, v in x.items():
-            s += f"{pad}{json.dumps(str(k), ensure_ascii=False)}:" + yaml_node(v, ind + 1)
+            key = str(k) if intkeys and str(k).isdigit() and len(str(k)) == 4 else json.dumps(str(k), ensure_ascii=False)
+            s += f"{pad}{key}:" + yaml_node(v, ind + 1, intkeys)      # an unquoted year is an integer key
         return s
     if isinstance(x, list):
         return " [" + ", ".join(yaml_scalar(e) for e in x) + "]\n"
@@ -265,7 +266,7 @@ def yaml_of_tests(tests, single=False) -> str:
                 s += f"  {key}:" + yaml_node(v, 2)
         s += "  input:" + yaml_node((t.get("extra") or {}).get("yaml_input", t["input"]), 2)
         if "output" in t:
-            s += "  output:" + yaml_node(t["output"], 2)
+            s += "  output:" + yaml_node(t["output"], 2, intkeys=bool((t.get("extra") or {}).get("keywords")))
     if single and len(tests) == 1:         # a file holding one test as a mapping, not a list
         s = "".join(l[2:] + "\n" for l in s.splitlines())
     return s
@@ -273,7 +274,8 @@ def yaml_of_tests(tests, single=False) -> str:
 
 def impl_yaml(pl) -> str:
     tests = [materialise(t) for t in pl["tests"]]
-    status, outs = A.run_yaml_tests(A.system(), yaml_of_tests(tests, pl.get("single", False)), "t", pl.get("options") or None)
+    status, outs = A.run_yaml_tests(A.system(), yaml_of_tests(tests, pl.get("single", False)), "t", pl.get("options") or None,
+                                    pl.get("how", "file"))
     if len(outs) != len(tests):
         raise RuntimeError(f"{len(outs)} outcomes for {len(tests)} tests (status {status}): {outs[:2]}")
     verdicts = ["PASS" if o["outcome"] == "passed" else "FAIL" for o in outs]
@@ -294,17 +296,73 @@ def pval_token(v) -> str:
     return "n" if v is None else A.num_token(v, f32=False)
 
 
+def param_node(seed, pid: str):
+    node = A.system(seed).parameters
+    for part in pid.split("."):
+        node = node.children[part]
+    return node
+
+
+def param_meta_diff(body, node):
+    """description / documentation / metadata / id of a served parameter against the object's"""
+    if body.get("id") != node.name:
+        return f"id {body.get('id')}"
+    if body.get("description") != getattr(node, "description", None):
+        return f"description {body.get('description')!r} <> {getattr(node, 'description', None)!r}"
+    if body.get("metadata") != node.metadata:
+        return f"metadata {body.get('metadata')} <> {node.metadata}"
+    doc = getattr(node, "documentation", None)
+    if (body.get("documentation") if doc else doc) != (doc.strip() if doc else doc) or (not doc and "documentation" in body):
+        return f"documentation {body.get('documentation')!r} <> {doc!r}"
+    return None
+
+
 def impl_phist(pl) -> str:
     body = A.client(pl["seed"]).get("/parameter/" + pl["id"].replace(".", "/")).get_json()
     served = body.get("values")
     if served is None:
         return "NOVALUES"
-    node = A.system(pl["seed"]).parameters
-    for part in pl["id"].split("."):
-        node = node.children[part]
+    node = param_node(pl["seed"], pl["id"])
+    bad = param_meta_diff(body, node)
+    if bad:
+        return "META " + bad
     shown = [f"{_ord(d)}:{pval_token(served[d])}" for d in sorted(served)]
     at = [pval_token(node(datetime.date.fromordinal(o).isoformat())) for o in pl["probes"]]
     return f"{','.join(shown) or '-'} | {','.join(at) or '-'}"
+
+
+VALUE_TYPE_NAMES = {"int": "Int", "float": "Float", "bool": "Boolean", "str": "String", "date": "Date", "enum": "String"}
+TYPE_DEFAULTS = {"int": 0, "float": 0, "bool": False, "str": "", "date": "1970-01-01", "enum": "tenant"}
+ENUM_VALUES = {"owner": "Owner", "tenant": "Tenant", "free_lodger": "Free lodger", "homeless": "Homeless"}
+
+
+def variable_meta_diff(body, name: str, var):
+    """what /variable/<id> says beside the formulas, against the harness's own table of the system
+    (value type, default value, definition period, entity, possible values) and the object's texts"""
+    ent, vt, dp, _ = var_info(name) or ("person", "float", "month", False)       # dv<k> of the generated systems
+    want = {"id": name, "valueType": VALUE_TYPE_NAMES[vt], "definitionPeriod": dp.upper(), "entity": ent,
+            "defaultValue": A.DEFAULTS.get(name, TYPE_DEFAULTS[vt]), "description": f"label of {name}"}
+    for k, v in want.items():
+        if body.get(k) != v or type(body.get(k)) is not type(v):
+            if not (k == "defaultValue" and vt == "float" and body.get(k) == v):
+                return f"{k} {body.get(k)!r} <> {v!r}"
+    if (body.get("possibleValues") if vt == "enum" else None) != (ENUM_VALUES if vt == "enum" else None) or \
+            (vt != "enum" and "possibleValues" in body):
+        return f"possibleValues {body.get('possibleValues')}"
+    doc = var.documentation
+    if body.get("documentation") != (doc.strip() if doc else None):
+        return f"documentation {body.get('documentation')!r}"
+    if body.get("references") != (var.reference or None):
+        return f"references {body.get('references')!r}"
+    for d, f in var.formulas.items():
+        served = (body.get("formulas") or {}).get(d)
+        if served is None or served.get("documentation") != (f.__doc__ or None) and not (f.__doc__ is None and "documentation" not in served):
+            return f"formula {d} documentation"
+        import inspect
+        import textwrap
+        if served.get("content") != textwrap.dedent("".join(inspect.getsourcelines(f)[0])):
+            return f"formula {d} content"
+    return None
 
 
 def impl_vforms(pl) -> str:
@@ -312,8 +370,12 @@ def impl_vforms(pl) -> str:
     body = cl.get("/variable/" + pl["var"]).get_json()
     listed = cl.get("/variables").get_json().get(pl["var"])
     var = A.system(pl["seed"]).get_variable(pl["var"])
-    if listed is None or listed.get("description") != var.label or body.get("id") != var.name:
+    if listed is None or listed.get("description") != var.label or body.get("id") != var.name or \
+            not listed.get("href", "").endswith("/variable/" + pl["var"]):
         return "NOTLISTED"
+    bad = variable_meta_diff(body, pl["var"], var)
+    if bad:
+        return "META " + bad
     served = body.get("formulas") or {}
     shown = [f"{_ord(d)}:{'n' if served[d] is None else 'F'}" for d in sorted(served)]
     starts = {id(f): d for d, f in var.formulas.items()}
@@ -325,7 +387,40 @@ def impl_vforms(pl) -> str:
 
 
 def impl_params(pl) -> str:
-    body = A.client(pl["seed"]).get("/parameters").get_json()
+    """/parameters; and (carried by the oracle only) the other routes to the same listings: the dotted
+    legacy id, a trailing slash, 404 for what the system does not hold, nodes, /entities"""
+    cl = A.client(pl["seed"])
+    tbs = A.system(pl["seed"])
+    body = cl.get("/parameters").get_json()
+    for pid, entry in body.items():
+        node = param_node(pl["seed"], pid)
+        if entry.get("description") != getattr(node, "description", None) or \
+                not entry.get("href", "").endswith("/parameter/" + pid.replace(".", "/")):
+            return f"X:overview entry {pid} {entry}"
+        canonical = cl.get("/parameter/" + pid.replace(".", "/"))
+        if canonical.status_code != 200:
+            return f"X:status {pid}"
+        for route in ("/parameter/" + pid, "/parameter/" + pid.replace(".", "/") + "/"):
+            r = cl.get(route, follow_redirects=True)
+            if r.status_code != 200 or r.get_json() != canonical.get_json():
+                return f"X:route {route}"
+    for route in ("/parameter/taxes/nope", "/parameter/nope", "/parameter/taxes.nope", "/variable/nope", "/variable/taxes"):
+        if cl.get(route).status_code != 404:
+            return f"X:no 404 for {route}"
+    for node in tbs.parameters.get_descendants():
+        if hasattr(node, "children") and not hasattr(node, "brackets"):
+            b = cl.get("/parameter/" + node.name.replace(".", "/")).get_json()
+            bad = param_meta_diff(b, node)
+            if bad or b.get("subparams") != {k: {"description": getattr(c, "description", None)} for k, c in node.children.items()}:
+                return f"X:node {node.name} {bad}"
+    ents = cl.get("/entities").get_json()
+    want = {}
+    for e in tbs.entities:
+        want[e.key] = {"plural": e.plural, "description": e.label, "documentation": e.doc.strip()}
+        if not e.is_person:
+            want[e.key]["roles"] = {r.key: {"plural": r.plural, "description": r.doc, **({"max": r.max} if r.max else {})} for r in e.roles}
+    if ents != want:
+        return f"X:entities {ents}"
     return ",".join(A.hx(k) for k in sorted(body, key=lambda s: s.encode())) or "-"
 
 
@@ -342,9 +437,10 @@ def impl_scale(pl) -> str:
     br = body.get("brackets")
     if br is None:
         return "NOBRACKETS"
-    node = A.system(pl["seed"]).parameters
-    for part in pl["id"].split("."):
-        node = node.children[part]
+    node = param_node(pl["seed"], pl["id"])
+    bad = param_meta_diff(body, node)
+    if bad:
+        return "META " + bad
     for o in pl["probes"]:
         d = datetime.date.fromordinal(o).isoformat()
         api = scale_at(br, d)
@@ -357,9 +453,86 @@ def impl_scale(pl) -> str:
     return "same"
 
 
+def impl_near(pl) -> str:
+    """assert_near called directly (as country packages' Python tests do), on plain Python values"""
+    import numpy as np
+    from openfisca_core.tools import assert_near
+    vals = pl["values"]
+    value = {"scalar": lambda: vals[0], "list": lambda: list(vals), "tuple": lambda: tuple(vals), "array": lambda: np.array(vals),
+             "array32": lambda: np.array(vals, dtype=np.float32)}[pl["container"]]()
+    target = A.parse_tokens(pl["target_tok"])[0]
+    if isinstance(target, list) and pl.get("target_array"):
+        target = np.array(target)
+    kw = {}
+    if pl["abs"] is not None or pl["explicit_none"]:
+        kw["absolute_error_margin"] = pl["abs"]
+    if pl["rel"] is not None or pl["explicit_none"]:
+        kw["relative_error_margin"] = pl["rel"]
+    if pl["message"]:
+        kw["message"] = "x@2018: "
+    try:
+        assert_near(value, target, **kw)
+    except Exception:
+        return "FAIL"
+    return "PASS"
+
+
+def oracle_near(pl, out: str):
+    target = A.parse_tokens(pl["target_tok"])[0]
+    vals = pl["values"]
+    exps = target if isinstance(target, list) else [target] * len(vals)
+    if len(exps) != len(vals):
+        return None
+    am, rm = pl["abs"], pl["rel"]
+    if am is None and rm is None:
+        am = 0
+    ok = True
+    for a, e in zip(vals, exps):
+        if pl["type"] == "str":
+            if not isinstance(e, str):
+                return None
+            ok = ok and a == e
+        else:
+            fe, fa = _exp_fraction(e), _exp_fraction(a)
+            if fe is None:
+                return None
+            d = abs(fe - fa)
+            ok = ok and (am is None or d <= Fraction(am)) and (rm is None or d <= abs(Fraction(rm) * fe))
+    if (out == "PASS") != ok:
+        return (f"near:wrong-verdict:{pl['type']}", f"assert_near({vals}, {target}, abs={pl['abs']}, rel={pl['rel']}) "
+                f"{'passes' if out == 'PASS' else 'fails'}; the values are {'within' if ok else 'NOT within'} the margins")
+    return None
+
+
+def gen_near(rng: random.Random) -> Case:
+    ty = rng.choice(["int", "float", "float", "bool", "str"])
+    n = rng.choice([1, 1, 2, 3])
+    vals = [{"int": lambda: rng.randint(-20, 50), "float": lambda: rng.randint(-64, 64) / 8, "bool": lambda: rng.random() < 0.5,
+             "str": lambda: rng.choice(["abc", "héllo", "", "x y"])}[ty]() for _ in range(n)]
+    container = rng.choice((["scalar"] if n == 1 else []) + ["list", "tuple", "array"] + (["array32"] if ty == "float" else []))
+    mk, am, rm = rng.choice([("none", None, None), ("abs", rng.choice([0, 0.5, 1, 2]), None), ("rel", None, rng.choice([0.5, 1, 0])),
+                             ("both", rng.choice([1, 4]), 0.5), ("neg", -1, None)])
+    rel = rng.choice(["equal", "within", "at", "beyond", "far"])
+    var = {"int": "p_int", "float": "p_float", "bool": "p_bool", "str": "p_str"}[ty]
+    tok = {"int": lambda v: f"i{v}", "float": lambda v: "f" + A.rat(Fraction(v)), "bool": lambda v: "bT" if v else "bF",
+           "str": lambda v: "s" + A.hx(v)}[ty]
+    which = rng.randrange(n)
+    exps = [expected_for(rng, var, tok(v), rel if k == which else "equal", am, rm) for k, v in enumerate(vals)]
+    target = exps[0] if (n == 1 or len(set(map(repr, exps))) == 1) and rng.random() < 0.5 else exps
+    ttok = A.j_tokens(target, f32=False)
+    mt = lambda m: "~" if m is None else A.rat(Fraction(m))
+    line = " ".join(["api", "near", ty, *[tok(v) for v in vals], ";", *ttok, "a", mt(am), "r", mt(rm)])
+    return Case(line=line, payload={"op": "near", "type": ty, "values": vals, "container": container, "target_tok": ttok, "abs": am,
+                                    "rel": rm, "explicit_none": rng.random() < 0.3, "message": rng.random() < 0.3,
+                                    "target_array": rng.random() < 0.3},
+                tags=("near", "near:" + container, "margin:" + mk))
+
+
 def impl(case: Case) -> str:
     pl = case.payload
     k = pl["op"]
+    if k == "near":
+        return impl_near(pl)
     if k in ("calc", "trace"):
         return answer(A.client(), pl["req"])
     if k == "seq":
@@ -636,8 +809,12 @@ def oracle(case: Case, out: str):
             if v is not None:
                 return v
         return None
+    if k == "near":
+        return oracle_near(pl, out)
     if k == "yaml":
         return oracle_yaml(pl["tests"], out)
+    if k in ("phist", "vforms", "scale") and out.startswith("META"):
+        return ("listing:" + ("variable" if k == "vforms" else "parameter") + "-meta", f"{pl.get('id') or pl.get('var')}: {out[:400]}")
     if k == "phist":
         want = ",".join(f"{o}:{v}" for o, v in sorted(pl["history"])) or "-"
         served, _, at = out.partition(" | ")
@@ -744,14 +921,23 @@ def gen_population(rng: random.Random, with_households=None):
 
 
 def fill_entity(rng: random.Random, table: dict, entity: str, nvars: int, null_rate: float, lattice=False, months_only=False):
+    """inputs and null slots; two spellings of one period ("2018-02", "month:2018-02") are only
+    written when both are null slots (two inputs for one period are the builder's business, C12)"""
+    pool = [v for v in BY_ENTITY[entity] if v != "p_spiral"]       # see PROP.assumptions: spiral reads are history dependent
     for iid in table:
-        for var in rng.sample(BY_ENTITY[entity], min(nvars, len(BY_ENTITY[entity]))):
+        for var in rng.sample(pool, min(nvars, len(pool))):
             _, vt, dp, is_input = A.VARS[var]
             pers = PERIODS[dp]
             chosen = list(dict.fromkeys(rng.choice(pers) for _ in range(rng.choice([1, 1, 2]))))
+            canon = {}
             for per in chosen:
-                if is_input and rng.random() > null_rate:
-                    if dp == "month" and vt in ("int", "float") and not months_only and rng.random() < 0.1:
+                key = per.split(":")[-1].upper()
+                as_input = is_input and rng.random() > null_rate
+                if key in canon and (as_input or canon[key]):
+                    continue
+                canon[key] = as_input
+                if as_input:
+                    if dp == "month" and vt in ("int", "float") and not months_only and rng.random() < 0.1 and "2018" not in canon:
                         table[iid].setdefault(var, {})["2018"] = 12 * rng.randint(0, 4)
                     else:
                         table[iid].setdefault(var, {})[per] = input_value(rng, var, lattice)
@@ -920,7 +1106,7 @@ def to_yaml_number(q: Fraction, as_int_ok: bool):
 
 
 def expected_for(rng: random.Random, var: str, actual_tok: str, relation: str, am, rm):
-    vt = A.vtype(var)
+    vt = A.vtype(var, "ext")
     a = tok_value(actual_tok)
     if vt in ("int", "float"):
         q = shift_numeric(rng, Fraction(a), relation, am, rm)
@@ -953,7 +1139,7 @@ def margin_config(rng: random.Random, var: str, kind=None):
         return {}, None, None
     if kind == "abs":
         m = rng.choice([1, 0.5, 2, 0.125, 0, 3])
-        return {"absolute_error_margin": m}, m, None
+        return {"absolute_error_margin": str(m) if rng.random() < 0.15 else m}, m, None      # a quoted number is accepted too
     if kind == "rel":
         r = rng.choice([0.5, 0.5, 1, 0, 0.25])
         return {"relative_error_margin": r}, None, r
@@ -992,7 +1178,7 @@ def expectations_of(output, period, margins, engine_ids, variant=""):
     def margin(m, var):
         if isinstance(m, dict):
             return m[var] if var in m else m.get("default", "missing")
-        return m
+        return float(m) if isinstance(m, str) else m
     out = []
 
     def leafs(var, per, inst, v, lay):
@@ -1043,7 +1229,7 @@ def finish_test(name, inp, period, margins, output, layout, group=None, extra=No
     """run the independent engine on the test's situation and tabulate it"""
     extra = dict(extra or {})
     variant = "+".join(k for k, key in (("reform", "reforms"), ("ext", "extensions")) if extra.get(key))
-    exps = expectations_of(output or {}, period, margins, None, variant)
+    exps = expectations_of(output or {}, None if period is None else str(period), margins, None, variant)
     pairs = [(x["var"], x["period"]) for x in exps if x["period"] is not None]
     accepted, ids, vecs = A.engine_run(inp, pairs, variant, extra.get("max_spiral_loops"))
     if extra.get("reforms") not in (None, A.REFORM, [A.REFORM]):
@@ -1065,8 +1251,8 @@ def finish_test(name, inp, period, margins, output, layout, group=None, extra=No
             for k, v in m.items():
                 out += ["k" + A.hx(k), "~" if v is None else A.rat(Fraction(v))]
             return out + ["}"]
-        return ["d" + A.rat(Fraction(m))]
-    toks = world + ["Y", "p~" if period is None else "p" + A.hx(period), "a", *mtoks(margins.get("absolute_error_margin")),
+        return ["d" + A.rat(Fraction(float(m)))]
+    toks = world + ["Y", "p~" if period is None else "p" + A.hx(str(period)), "a", *mtoks(margins.get("absolute_error_margin")),
                     "r", *mtoks(margins.get("relative_error_margin"))]
     for tok, key in (("N", "only_variables"), ("G", "ignore_variables")):
         if (options or {}).get(key) is not None:
@@ -1089,7 +1275,7 @@ def materialise(t):
     return t
 
 
-def gen_atoms(rng: random.Random, inp, nvars: int, type_pick=None, variant="", msl=None):
+def gen_atoms(rng: random.Random, inp, nvars: int, type_pick=None, variant="", msl=None, tperiod=None):
     """variables to assert on, with the engine's actual vectors"""
     ids = {"persons": list(inp["persons"]), "households": list(inp["households"])}
     names = list(A.VARS) + (list(A.EXT_VARS) if "ext" in variant else [])
@@ -1112,11 +1298,12 @@ def gen_atoms(rng: random.Random, inp, nvars: int, type_pick=None, variant="", m
         else:
             per = rng.choice([None, "ETERNITY"])
         pairs.append((var, per))
-    _, eids, vecs = A.engine_run(inp, [(v, p or TEST_PERIOD) for v, p in pairs], variant, msl)
+    tperiod = str(tperiod or TEST_PERIOD)
+    _, eids, vecs = A.engine_run(inp, [(v, p or tperiod) for v, p in pairs], variant, msl)
     ids = eids or ids
     atoms = []
     for var, per in pairs:
-        r = vecs.get((var, per or TEST_PERIOD))
+        r = vecs.get((var, per or tperiod))
         if r and r[0] == "ok":
             atoms.append((var, per, r[1]))
     return atoms, ids
@@ -1146,8 +1333,10 @@ def gen_yaml_group(rng: random.Random, name: str, type_pick=None, relation=None,
     extra, form = ({}, None) if plain else gen_extras(rng)
     variant = "+".join(k for k, key in (("reform", "reforms"), ("ext", "extensions")) if extra.get(key))
     inp = gen_test_input(rng, single=form in ("variables", "singular"))
+    # the test's period: other months, another spelling, an integer year (YAML types an unquoted 2018 as int)
+    tperiod = TEST_PERIOD if plain else rng.choice([TEST_PERIOD] * 7 + ["2017-12", "month:2018-02", 2018])
     atoms, ids = gen_atoms(rng, inp, 1 if three or type_pick else rng.choice([1, 2, 3]), type_pick, variant,
-                           extra.get("max_spiral_loops"))
+                           extra.get("max_spiral_loops"), tperiod)
     if not atoms:
         return []
     margins, am, rm = margin_config(rng, atoms[0][0], mkind)
@@ -1170,7 +1359,7 @@ def gen_yaml_group(rng: random.Random, name: str, type_pick=None, relation=None,
             output: dict = {}
             for var, per, exps in built:
                 place(output, lay, var, per, exps, ids)
-            out.append(finish_test(f"{name}-{lay}", inp, TEST_PERIOD, margins, output, lay, group=g, extra=extra,
+            out.append(finish_test(f"{name}-{lay}", inp, tperiod, margins, output, lay, group=g, extra=extra,
                                    options=options, form=form))
         return out
     output = {}
@@ -1181,7 +1370,7 @@ def gen_yaml_group(rng: random.Random, name: str, type_pick=None, relation=None,
         if lay != "instance" and len(set(map(repr, exps))) == 1 and rng.random() < 0.3:
             exps = exps[0]                      # a scalar, broadcast over the population
         place(output, lay, var, per, exps, ids)
-    out.append(finish_test(name, inp, TEST_PERIOD, margins, output, lay0, extra=extra, options=options, form=form))
+    out.append(finish_test(name, inp, tperiod, margins, output, lay0, extra=extra, options=options, form=form))
     return out
 
 
@@ -1210,7 +1399,7 @@ def gen_yaml_odd(rng: random.Random, name: str, options=None):
                        "scalar", "list-for-instance", "text-for-number", "number-for-text", "number-for-enum", "bool-for-enum",
                        "date-for-number", "text-for-date", "entity-not-mapping", "instance-not-mapping", "other-entity-singular",
                        "other-entity-instance", "bad-input", "nested-periods", "mismatch-period", "number-for-date", "text-list-number",
-                       "non-ascii-input", "bad-reform", "ignored-unknown-instance", "empty-output"])
+                       "non-ascii-input", "bad-reform", "ignored-unknown-instance", "empty-output", "bad-test-period"])
     extra = {}
     period, margins, output = TEST_PERIOD, {}, {}
     pid = ids["persons"][0]
@@ -1272,6 +1461,8 @@ def gen_yaml_odd(rng: random.Random, name: str, options=None):
         output = {"persons": {"zz": {"p_f_int": 1}}}
     elif kind == "empty-output":
         output = {}
+    elif kind == "bad-test-period":        # set_default_period raises: an unexpected error while parsing the input
+        period, output = rng.choice(["abc", "2018-13", "month:2018"]), {"p_int": [0] * n}
     elif kind == "nested-periods":
         output = {"p_f_int": {"2018-01": {"2018-02": [1] * n}}}
     elif kind == "mismatch-period":
@@ -1283,8 +1474,9 @@ def gen_yaml_odd(rng: random.Random, name: str, options=None):
 
 def mk_yaml_case(tests_toks, tags=(), claimed=True, options=None, single=False) -> Case:
     line = "api yaml " + " ;; ".join(" ".join(toks) for _, toks in tests_toks)
-    payload = {"op": "yaml", "tests": [t for t, _ in tests_toks], "options": options or {}, "single": single}
-    tags = ("yaml",) + tuple(tags) + tuple("opt:" + k for k in (options or {})) + (("single-mapping",) if single else ())
+    how = ["file", "file", "list", "dir", "yml"][len(line) % 5]
+    payload = {"op": "yaml", "tests": [t for t, _ in tests_toks], "options": options or {}, "single": single, "how": how}
+    tags = ("yaml", "paths:" + how) + tuple(tags) + tuple("opt:" + k for k in (options or {})) + (("single-mapping",) if single else ())
     return Case(line=line, payload=payload, claimed=claimed, tags=tags)
 
 
@@ -1358,8 +1550,8 @@ def listing_cases(seed: int):
                     tags=("listing", "params")))
     dated = dict(A.dated_variables(seed)) if seed is not None else {}
     dated["p_dated"] = (["0001-01-01", "2015-06-01"], "2019-12-31")
-    dated["p_f_int"] = (["0001-01-01"], None)
-    dated["p_int"] = ([], None)
+    for name, (_, _, _, is_input) in (A.VARS.items() if seed is None else [("p_f_int", A.VARS["p_f_int"]), ("h_enum", A.VARS["h_enum"])]):
+        dated.setdefault(name, ([] if is_input else ["0001-01-01"], None))
     for var, (starts, stop) in dated.items():
         line = f"api vforms {','.join(str(_ord(d)) for d in starts) or '-'} {_ord(stop) if stop else '-'} {','.join(map(str, probes))}"
         out.append(Case(line=line, payload={"op": "vforms", "seed": seed, "var": var, "starts": starts, "end": stop, "probes": probes},
@@ -1383,6 +1575,7 @@ def generate(rng: random.Random, tier: str):
     A.system()
     quick = tier == "quick"
     n_calc, n_trace, n_seq, n_yaml_files, n_odd, n_sys = (450, 150, 90, 110, 60, 8) if quick else (4500, 1400, 500, 1000, 400, 40)
+    n_near = 150 if quick else 2000
     out = []
     for k in range(n_calc):
         doc = gen_doc(rng)
@@ -1416,6 +1609,8 @@ def generate(rng: random.Random, tier: str):
             group += gen_yaml_group(rng, f"odd{k}t{j}", options=options)
         rng.shuffle(group)
         out.append(mk_yaml_case(group, tags=("odd",), claimed=claimed, options=options))
+    for k in range(n_near):
+        out.append(gen_near(rng))
     out += listing_cases(None)
     for s in range(n_sys):
         out += listing_cases(rng.randrange(10 ** 6))
